@@ -1,5 +1,5 @@
 //! C20 — display names follow the documented precedence and macro substitution. Exhaustive over
-//! all 3^8 records of the eight display tags and all macro patterns up to a length.
+//! all 4^8 records of the eight display tags and all macro patterns up to a length.
 
 use super::common::Verdict;
 use crate::engine::{guarded, par_for, Run, Tier};
@@ -81,8 +81,16 @@ fn check_pattern(p: &str, scope_i: usize) -> Verdict {
 const TAGS: [&str; 8] = ["dis", "disMacro", "disKey", "name", "def", "tag", "navName", "id"];
 
 fn tag_value(tag: &str, variant: usize) -> V {
-    // variant 1 and 2: two values of different kinds
+    // variants 1, 2 and 3: three values of different kinds
     match (tag, variant) {
+        ("dis", 3) => V::numu(21.5, "°C"),
+        ("disMacro", 3) => V::str("no variables {here} <x>"),
+        ("disKey", 3) => V::num(42.0),
+        ("name", 3) => V::Ref("nameref".into(), Some("Name Dis".into())),
+        ("def", 3) => V::Marker,
+        ("tag", 3) => V::Marker,
+        ("navName", 3) => V::str(""),
+        ("id", 3) => V::Ref("bare".into(), None),
         ("disMacro", 1) => V::str("M $navName ${id} $<key> $zz"),
         ("disMacro", _) => V::num(7.0),
         ("disKey", 1) => V::str("key"),
@@ -105,8 +113,8 @@ fn record(code: usize) -> Tags {
     let mut c = code;
     let mut t: Vec<(&str, V)> = vec![];
     for tag in TAGS {
-        let v = c % 3;
-        c /= 3;
+        let v = c % 4;
+        c /= 4;
         if v > 0 {
             t.push((tag, tag_value(tag, v)));
         }
@@ -149,11 +157,11 @@ fn patterns_of_len(len: usize, idx: usize) -> String {
 pub fn run(tier: Tier) -> i32 {
     let mut run = Run::new("C20", tier, "exploration");
     let maxlen = tier.pick(6usize, 7);
-    run.rule = format!("all 3^8 records (each display tag absent / two values of different kinds) with and without default and through Dict::dis(); every macro pattern of length <= {maxlen} over {{$ {{ }} < > a b B 1 _ space é}} against 3 scopes and a localiser; reference = hand-written scanner; non-trivial = pattern containing '$' / record with >= 1 display tag");
+    run.rule = format!("all 4^8 records (each display tag absent / three values of different kinds) with and without default and through Dict::dis(); every macro pattern of length <= {maxlen} over {{$ {{ }} < > a b B 1 _ space é}} against 3 scopes and a localiser; reference = hand-written scanner; non-trivial = pattern containing '$' / record with >= 1 display tag");
     run.assume("text of a value that is neither Str nor Ref is Value::to_string() (delegated to the library; C20 is about which tag and which substitution)");
     run.assume("macro names are [a-z][A-Za-z0-9_]* taken greedily; $<key> has a non-empty key without '>'");
     crate::engine::quiet_panics();
-    let l = par_for(6561, |code, local| {
+    let l = par_for(65536, |code, local| {
         let rec = record(code);
         local.eval();
         if !rec.is_empty() {
